@@ -55,3 +55,40 @@ Print Assumptions C02_put_step.
 Print Assumptions C02_remove_step.
 Print Assumptions C02_lookup_cost.
 Print Assumptions C02_check_agrees.
+
+(* ---- the C text of the balancing helpers, machine-translated from clang's AST of qtreetbl.c on every run (Gen/TreeOps.v,
+   tools/gen_treeops.py), does on a heap of node objects exactly what the model's functions do on trees: same result
+   tree (shape, colours, node identities), nothing outside the nodes of the argument is touched, no NULL is dereferenced
+   whenever the model does not Crash.  So the theorems above speak about the code as it is now for these functions;
+   put_obj/remove_obj/remove_min, which call them, stay tied by the lockstep runs. *)
+From QV.Tree Require Import TreeHeap TreeHeapProofs TreeHeapMrl TreeHeapFix.
+From QV.Gen Require Import TreeOps.
+Theorem C02_c_helpers_refine :
+  refines c_flip_color flip /\ refines c_rotate_left rotl /\ refines c_rotate_right rotr /\
+  refines c_move_red_left mrl /\ refines c_move_red_right mrr /\
+  (forall h p (t t' : tree positive), t <> E -> rep h p t -> NoDup (elements t) -> fix_ t = Ok t' ->
+     exists p' h', c_fix p h = Ok (p', h') /\ rep h' p' t' /\ frame (elements t) h h') /\
+  (forall h p t, rep h p t -> c_is_red p h = Ok (is_red t, h)).
+Proof. exact (conj c_flip_refines (conj c_rotl_refines (conj c_rotr_refines (conj c_mrl_refines (conj c_mrr_refines
+  (conj c_fix_refines c_is_red_ok)))))). Qed.
+(* flip_color() returns its argument (move_red_left/right ignore the result and go on with their own pointer) *)
+Theorem C02_c_flip_same_pointer : forall h p (t t' : tree positive), rep h p t -> NoDup (elements t) -> flip t = Ok t' ->
+  exists h', c_flip_color p h = Ok (p, h') /\ rep h' p t' /\ frame (elements t) h h'.
+Proof. exact c_flip_same_ptr. Qed.
+(* the spine loops of find_min()/find_max() end on the node of the least / greatest key and change nothing *)
+Theorem C02_c_find_min_max : forall h p (t : tree positive), rep h p t ->
+  c_find_min (size t) p h = Ok (tmin t, h) /\ c_find_max (size t) p h = Ok (tmax t, h).
+Proof. intros h p t H. exact (conj (c_find_min_ok h p t H) (c_find_max_ok h p t H)). Qed.
+(* non-vacuity: a three-node heap with a red right child; fix() rotates it to the left *)
+Example C02_c_helpers_nonvacuous :
+  let h : heap := fun j => match j with 1%positive => Some (mkcell false (Some 2%positive) (Some 3%positive))
+                                   | 2%positive => Some (mkcell false None None)
+                                   | 3%positive => Some (mkcell true None None) | _ => None end in
+  let t := T false (T false E 2%positive E) 1%positive (T true E 3%positive E) in
+  rep h (Some 1%positive) t /\ NoDup (elements t) /\ fix_ t = Ok (T false (T true (T false E 2 E) 1 E) 3 E)%positive
+  /\ (exists h', c_fix (Some 1%positive) h = Ok (Some 3%positive, h')).
+Proof. cbn. split; [repeat first [reflexivity | split | eexists]|]. split; [repeat constructor; cbn; intuition discriminate|].
+  split; [reflexivity|]. eexists; reflexivity. Qed.
+Print Assumptions C02_c_helpers_refine.
+Print Assumptions C02_c_flip_same_pointer.
+Print Assumptions C02_c_find_min_max.
